@@ -19,9 +19,9 @@ func init() {
 		Level: "exploration",
 		Rule: "seeded histories over <=8 IDs and <=5 expiry values (duplicate IDs with different expiries, many IDs per expiry, zero expiry): (a) EMap driven by 1..3 concurrent client tasks under the seeded scheduler (Add/SetMin/Any/Contains), each completed operation compared in completion order with an ordered-set reference; (b) ExpiryHeap histories (Add/Remove/SetMin/PeekMin/PopMin/Has/Len) against the same reference; " +
 			"non-trivial = the history contains a SetMin that evicts something or a duplicate-ID add; distinct = distinct (history, schedule) hashes",
-		Exec: c25,
-		Real: []string{"internal/emap EMap", "internal/eheap ExpiryHeap", "internal/heap Heap + innerHeap"},
-		Stub: []string{"goroutine scheduling for the EMap clients"},
+		Exec:        c25,
+		Real:        []string{"internal/emap EMap", "internal/eheap ExpiryHeap", "internal/heap Heap + innerHeap"},
+		Stub:        []string{"goroutine scheduling for the EMap clients"},
 		Assumptions: []string{"EMap operations are atomic at their lock acquisition (yield point before every Lock/RLock); ExpiryHeap is not concurrency-safe by contract and is driven sequentially"},
 	})
 }
